@@ -518,14 +518,14 @@ def _mentions_last_test(node, var, rng) -> bool:
 
 
 def free_conditions(node):
-    """Atomic conditions (source text -> ast) of the Alts left in the term."""
-    out = {}
+    """Conditions (source text -> ast) to enumerate for the Alts left in the term: the atomic conditions, except that a compound
+    condition none of whose atoms occurs in any other condition is enumerated as a whole (one case split instead of 2**k)."""
+    conds_ = []
 
     def go(n):
         if isinstance(n, Alt):
             if n.cond is not None:
-                for a in atoms_of_cond(n.cond):
-                    out.setdefault(norm(a), a)
+                conds_.append(n.cond)
             go(n.a)
             go(n.b)
         elif isinstance(n, Seq):
@@ -534,6 +534,18 @@ def free_conditions(node):
         elif isinstance(n, Rep):
             go(n.body)
     go(node)
+    atoms_by_cond = [(c, {norm(a): a for a in atoms_of_cond(c)}) for c in conds_]
+    out = {}
+    for i, (c, ats) in enumerate(atoms_by_cond):
+        others = set()
+        for j, (c2, ats2) in enumerate(atoms_by_cond):
+            if j != i and norm(c2) != norm(c):
+                others |= set(ats2)
+        if len(ats) > 1 and not (set(ats) & others):
+            out.setdefault(norm(c), c)
+        else:
+            for k, a in ats.items():
+                out.setdefault(k, a)
     return out
 
 
